@@ -70,6 +70,36 @@ def gateVal {α} (z : α) (prim : String → α → α → α → α → α) (ki
       (match drv[2]? with | some d => σ d | none => z) (match drv[3]? with | some d => σ d | none => z)
   | none => z
 
+/-! ### the n-ary reading (audit finding 1 / known finding D33)
+
+`gateVal` reads operands 0..3 only — as the real simulator does.  What a READER of `z = AND(a, b, c, d, e)` expects is the
+operator of the family folded over ALL operands.  `gateFunN` is this reading for the two-valued domain, written without the
+primitive table: and/nand: all operands, or/nor: any operand, xor/xnor: parity — a gate has at least two operand slots, a missing
+one reads `z` (the documented rule for unconnected pins: `z = AND(a)` is `AND2(a, z)`); the fixed-arity kinds (buf, not, ao21, …,
+mux21, constants) keep their formula over operands 0..3.  `benchArityB`: every combinational gate statement has at most four operands;
+inside it the two readings agree (`Proofs/WideGate.lean: gateFunN_eq`, `benchModelN_iff`), outside they differ
+(`C11.wide_gate_not_simulated`). -/
+
+/-- operand list of a variadic gate: all operands, filled up to two slots with `z` -/
+def padTwo (z : Bool) (xs : List Bool) : List Bool := xs ++ List.replicate (2 - xs.length) z
+
+/-- n-ary two-valued meaning of a gate kind (lower-cased) over ALL operand values -/
+def gateFunN (z : Bool) (lkind : String) (xs : List Bool) : Bool :=
+  match specFamily lkind with
+  | none => z
+  | some f =>
+    if f.1 == "and" then (padTwo z xs).all id
+    else if f.1 == "nand" then !(padTwo z xs).all id
+    else if f.1 == "or" then (padTwo z xs).any id
+    else if f.1 == "nor" then !(padTwo z xs).any id
+    else if f.1 == "xor" then (padTwo z xs).foldl Bool.xor false
+    else if f.1 == "xnor" then !(padTwo z xs).foldl Bool.xor false
+    else prim2 f.2.2.2 (xs.getD 0 z) (xs.getD 1 z) (xs.getD 2 z) (xs.getD 3 z)
+
+/-- the arity domain of a description: every combinational gate statement has at most four operands -/
+def benchArityB (stmts : List BStmt) : Bool :=
+  (benchGates stmts).all fun g => isSeqKind g.kind || g.drv.length ≤ 4
+
 def isGateName (stmts : List BStmt) (s : String) : Bool := (benchGates stmts).any fun g => g.name == s
 
 /-- what a name without gate statement carries -/
@@ -83,6 +113,15 @@ def stmtVal {α} (stmts : List BStmt) (z : α) (prim : String → α → α → 
 /-- `σ` is a model of the description under the assignment `a` -/
 def BenchModel {α} (stmts : List BStmt) (z : α) (prim : String → α → α → α → α → α) (a : Nat → α) (σ : String → α) : Prop :=
   (∀ g ∈ benchGates stmts, σ g.name = stmtVal stmts z prim a g σ) ∧
+  (∀ s, isGateName stmts s = false → σ s = freeVal stmts z a s)
+
+/-- the n-ary reading of a gate statement and of a description (two-valued) -/
+def stmtValN (stmts : List BStmt) (z : Bool) (a : Nat → Bool) (g : BGate) (σ : String → Bool) : Bool :=
+  if isSeqKind g.kind then a (benchSPos stmts (.cell g.name 0)) else gateFunN z g.kind.toLower (g.drv.map σ)
+
+/-- `σ` is a model of the description in the n-ary reading: every gate statement computes its family's operator over ALL operands -/
+def BenchModelN (stmts : List BStmt) (z : Bool) (a : Nat → Bool) (σ : String → Bool) : Prop :=
+  (∀ g ∈ benchGates stmts, σ g.name = stmtValN stmts z a g σ) ∧
   (∀ s, isGateName stmts s = false → σ s = freeVal stmts z a s)
 
 /-- the description builds: gate names pairwise different, no kind is `__fork__` -/
